@@ -131,7 +131,9 @@ OTHERS = {-1: lambda: {}, -2: lambda: {1: 2}, -3: lambda: {1}, 1: lambda: object
 MODULES = {0: math, 1: re}
 CALLABLES = {0: f0, 1: len}
 DTYPES = {30: np.dtype("float64"), 31: np.dtype("float32"), 32: np.dtype("int64"), 33: np.dtype("int32"),
-          34: np.dtype("int8"), 35: np.dtype("bool"), 36: np.dtype("<U1"), 37: np.dtype("complex128")}
+          34: np.dtype("int8"), 35: np.dtype("bool"), 36: np.dtype("<U1"), 37: np.dtype("complex128"),
+          # other parametrisations of the same scalar type (dtype.type is identical, the dtype is not)
+          38: np.dtype("<U3"), 40: np.dtype(">f8"), 41: np.dtype("S2")}
 CASTING = {0: "no", 1: "equiv", 2: "safe", 3: "same_kind", 4: "unsafe"}
 
 
@@ -140,8 +142,9 @@ def make_array(dt, shape, cid):
     size = 1
     for n in shape:
         size *= n
-    if dt == 36:
-        flat = np.array([chr(97 + (i + cid) % 26) for i in range(size)], dtype="<U1")
+    if dt in (36, 38, 41):
+        width = {36: 1, 38: 3, 41: 2}[dt]
+        flat = np.array([chr(97 + (i + cid) % 26) * width for i in range(size)], dtype=DTYPES[dt])
     elif dt == 35:
         flat = np.array([(i + cid) % 2 == 0 for i in range(size)], dtype=bool)
     else:
